@@ -11,7 +11,7 @@ import numpy as np
 
 from common import (real_solve, real_solve_canon, solve_op, run_driver, parse_solve_answer, compare_solve,
                     random_case, case_to_json, case_from_json, power_profiles, uniform_profiles, zgrid,
-                    random_source)
+                    random_source, limit_growth, field_floor)
 
 TOL = {"double": 1e-9, "single": 2e-5}
 
@@ -37,7 +37,7 @@ def solve3(case):
     return conc, flx, Z
 
 
-def relerr(a, b):
+def relerr(a, b, scale=None):
     a = np.asarray(a, dtype=float)
     b = np.asarray(b, dtype=float)
     if a.shape != b.shape:
@@ -45,6 +45,8 @@ def relerr(a, b):
     if not (np.all(np.isfinite(a)) and np.all(np.isfinite(b))):
         return float("inf")
     sc = max(float(np.max(np.abs(a))), float(np.max(np.abs(b))), 1e-300)
+    if scale is not None:
+        sc = max(sc, float(scale))
     return float(np.max(np.abs(a - b))) / sc
 
 
@@ -59,7 +61,7 @@ def correspond(cases, stats):
     model = [parse_solve_answer(l) for l in run_driver([solve_op(c) for c in cases])]
     for c, i, m in zip(cases, impl, model):
         tol = TOL.get(c["precision"], 1e-9)
-        ok, gap, what = compare_solve(i, m, tol)
+        ok, gap, what = compare_solve(i, m, tol, field_floor(c))
         stats["corr_cases"] += 1
         if np.isfinite(gap):
             stats["worst_gap"] = max(stats["worst_gap"], gap)
@@ -367,7 +369,7 @@ def o_halo_padding(case):
     tol = 1e-9 if base["precision"] == "double" else 3e-5
     for name, k in (("conc", 0), ("flx", 1)):
         crop = b[k][:, py:py + ny, px:px + nx]
-        e = relerr(a[k], crop)
+        e = relerr(a[k], crop, scale=field_floor(base)[k])
         if not e <= tol:
             return fail("C03/halo-padding/%s" % name, "halo result differs from explicit zero-padding + crop", None, "equal", e, tol)
     return None
@@ -461,8 +463,9 @@ def o_closed_form(case):
     a = solve3(base)
     p, q = spec_fields(base, closed_form_coef(base))
     tol = 1e-10
-    for name, got, exp in (("conc", a[0], p), ("flx", a[1], q)):
-        e = relerr(got, exp)
+    fl = field_floor(base)
+    for name, got, exp, f0 in (("conc", a[0], p, fl[0]), ("flx", a[1], q, fl[1])):
+        e = relerr(got, exp, scale=f0)
         if not e <= tol:
             return fail("C05/closed-form/%s" % name, "analytic mode differs from the closed-form half-space solution", None, "equal", e, tol)
     return None
@@ -526,6 +529,7 @@ def run_C05(rng, tier, deep):
         c = random_case(rng, analytic=bool(i % 2))
         c["profiles"] = uniform_profiles(rng, len(c["z"]))
         c["_kinds"]["prof"] = "uniform"
+        limit_growth(c)
         cases.append(c)
     correspond(cases, st)
     for _ in range(budget(tier, deep, 30, 300)):
@@ -549,7 +553,7 @@ def o_source_shift(case):
     b = solve3(dict(base, q=np.roll(np.asarray(base["q"]), (cy, cx), axis=(0, 1))))
     tol = 1e-10 if base["precision"] == "double" else 3e-5
     for name, k in (("conc", 0), ("flx", 1)):
-        e = relerr(np.roll(a[k], (cy, cx), axis=(1, 2)), b[k])
+        e = relerr(np.roll(a[k], (cy, cx), axis=(1, 2)), b[k], scale=field_floor(base)[k])
         if not e <= tol:
             return fail("C06/source-shift/%s" % name, "translating the source by whole cells does not translate the %s" % name, None, "equal", e, tol)
     return None
@@ -566,7 +570,7 @@ def o_tower_shift(case):
     b = solve3(dict(base, meas_pt=((im + cx) * dx, (jm + cy) * dy)))
     tol = 1e-10 if base["precision"] == "double" else 3e-5
     for name, k in (("conc", 0), ("flx", 1)):
-        e = relerr(np.roll(a[k], (cy, cx), axis=(1, 2)), b[k])
+        e = relerr(np.roll(a[k], (cy, cx), axis=(1, 2)), b[k], scale=field_floor(base)[k])
         if not e <= tol:
             return fail("C06/tower-shift/%s" % name, "moving the measurement point by whole cells does not translate the footprint", None, "equal", e, tol)
     # point reflection: footprint[j,i] = response to a unit source at the tower, evaluated at (2jm-j, 2im-i)
@@ -578,7 +582,7 @@ def o_tower_shift(case):
     bg = base.get("bg", 0.0)
     for name, k in (("conc", 0), ("flx", 1)):
         refl = d[k][:, jj][:, :, ii]
-        e = relerr(a[k], refl)
+        e = relerr(a[k], refl, scale=field_floor(base)[k])
         if not e <= tol:
             return fail("C06/point-reflection/%s" % name, "footprint is not the point reflection of the unit-source response about the tower", None, "equal", e, tol)
     return None
@@ -607,7 +611,7 @@ def o_recentre(case):
             return fail("C06/recentre/%s" % name, "value at the domain centre is not the field value at the measurement point", None,
                         [float(x) for x in exp], [float(x) for x in got], tol)
         if base.get("halo") == 0.0:
-            e = relerr(np.roll(a[k], (ny // 2 - jm, nx // 2 - im), axis=(1, 2)), b[k])
+            e = relerr(np.roll(a[k], (ny // 2 - jm, nx // 2 - im), axis=(1, 2)), b[k], scale=field_floor(base)[k])
             if not e <= tol:
                 return fail("C06/recentre-roll/%s" % name, "re-centred output is not the periodic translate of the un-centred one", None, "equal", e, tol)
     return None
@@ -692,7 +696,7 @@ def o_mirror(case):
     tol = 1e-9 if base["precision"] == "double" else 3e-5
     nlx, nly = base["modes"]
     for name, k in (("conc", 0), ("flx", 1)):
-        e = relerr(lowpass_strict(flip(a[k]), nlx, nly), lowpass_strict(b[k], nlx, nly))
+        e = relerr(lowpass_strict(flip(a[k]), nlx, nly), lowpass_strict(b[k], nlx, nly), scale=np.max(np.abs(a[k])))
         if not e <= tol:
             return fail("C07/mirror-%s/%s" % (axis, name), "mirroring the problem in %s does not mirror the %s (Nyquist components removed)" % (axis, name),
                         None, "equal", e, tol)
@@ -711,7 +715,7 @@ def o_transpose(case):
     b = solve3(t)
     tol = 1e-9 if base["precision"] == "double" else 3e-5
     for name, k in (("conc", 0), ("flx", 1)):
-        e = relerr(np.transpose(a[k], (0, 2, 1)), b[k])
+        e = relerr(np.transpose(a[k], (0, 2, 1)), b[k], scale=field_floor(base)[k])
         if not e <= tol:
             return fail("C07/transpose/%s" % name, "exchanging the x and y axes does not transpose the %s" % name, None, "equal", e, tol)
     return None
@@ -733,17 +737,17 @@ def o_similarity(case):
         b = solve3(t)
         for name, k in (("conc", 0), ("flx", 1)):
             bgk = base.get("bg", 0.0) if k == 0 else 0.0
-            e = relerr(a[k], b[k])
+            e = relerr(a[k], b[k], scale=field_floor(base)[k])
             if not e <= tol:
                 return fail("C07/length-similarity/%s" % name, "scaling all lengths and diffusivities by a common factor changed the %s" % name,
                             None, "equal", e, tol)
     else:
         t = dict(base, profiles=(u * s, v * s, Kx * s, Ky * s, Kz * s), bg=base.get("bg", 0.0) / s)
         b = solve3(t)
-        e = relerr(a[1], b[1])
+        e = relerr(a[1], b[1], scale=field_floor(base)[1])
         if not e <= tol:
             return fail("C07/velocity-similarity/flx", "scaling winds and diffusivities by a common factor changed the flux", None, "equal", e, tol)
-        e = relerr(a[0] / s, b[0])
+        e = relerr(a[0] / s, b[0], scale=field_floor(base)[0] / s)
         if not e <= tol:
             return fail("C07/velocity-similarity/conc", "scaling winds and diffusivities by s did not divide the concentration by s", None, "equal", e, tol)
     return None
@@ -791,18 +795,19 @@ def o_levels(case):
     Z = np.asarray(grid[2], dtype=float).reshape(nlv, ny, nx)
     tol = 1e-12 if base["precision"] == "double" else 1e-6
     full = solve3(dict(base, levels=list(range(len(z))))) if case["par"].get("full") else None
+    fl = field_floor(base)
     for k, l in enumerate(lvl):
         if not np.all(Z[k] == z[l]):
             return fail("C10/height-label", "returned height of slice %d is not the height of the requested level" % k, None, float(z[l]), float(Z[k, 0, 0]), 0)
         one = solve3(dict(base, levels=int(l)))
-        for name, got, exp in (("conc", conc[k], one[0][0]), ("flx", flx[k], one[1][0])):
-            e = relerr(got, exp)
+        for name, got, exp, f0 in (("conc", conc[k], one[0][0], fl[0]), ("flx", flx[k], one[1][0], fl[1])):
+            e = relerr(got, exp, scale=f0)
             if not e <= tol:
                 return fail("C10/slice-vs-single/%s" % name, "slice %d of a multi-level request differs from the single-level request for that level" % k,
                             None, "equal", e, tol)
         if full is not None:
-            for name, got, exp in (("conc", conc[k], full[0][l]), ("flx", flx[k], full[1][l])):
-                e = relerr(got, exp)
+            for name, got, exp, f0 in (("conc", conc[k], full[0][l], fl[0]), ("flx", flx[k], full[1][l], fl[1])):
+                e = relerr(got, exp, scale=f0)
                 if not e <= tol:
                     return fail("C10/slice-vs-column/%s" % name, "slice %d differs from the corresponding slice of a full-column request" % k,
                                 None, "equal", e, tol)
@@ -874,8 +879,9 @@ def o_shape_registration(case):
     if base["analytic"]:
         p, qq = spec_fields(base, closed_form_coef(base))
         tol = 1e-9 if base["precision"] == "double" else 3e-5
-        for name, got, exp in (("conc", conc, p), ("flx", flx, qq)):
-            e = relerr(np.asarray(got, dtype=float).reshape(nlv, ny, nx), exp)
+        fl = field_floor(base)
+        for name, got, exp, f0 in (("conc", conc, p, fl[0]), ("flx", flx, qq, fl[1])):
+            e = relerr(np.asarray(got, dtype=float).reshape(nlv, ny, nx), exp, scale=f0)
             if not e <= tol:
                 return fail("C11/registration/%s" % name, "returned %s is not registered on the input grid (differs from the closed-form field at the same cells)" % name,
                             None, "equal", e, tol)
@@ -896,12 +902,12 @@ def o_lowpass_clamp(case):
         tol = 1e-9
         if nlx > nx or nly > ny:
             for name, k in (("conc", 0), ("flx", 1)):
-                e = relerr(a[k], full[k])
+                e = relerr(a[k], full[k], scale=field_floor(base)[k])
                 if not e <= tol:
                     return fail("C11/clamp/%s" % name, "requesting more modes than the grid holds differs from requesting exactly as many", None, "equal", e, tol)
         else:
             for name, k in (("conc", 0), ("flx", 1)):
-                e = relerr(lowpass_strict(a[k], nlx, nly), lowpass_strict(full[k], nlx, nly))
+                e = relerr(lowpass_strict(a[k], nlx, nly), lowpass_strict(full[k], nlx, nly), scale=np.max(np.abs(full[k])))
                 if not e <= tol:
                     return fail("C11/lowpass/%s" % name, "truncation changed a component strictly inside the cut-off", None, "equal", e, tol)
                 # and nothing at or beyond the cut-off survives
@@ -935,6 +941,9 @@ def run_C11(rng, tier, deep):
         if c["analytic"]:
             c["profiles"] = uniform_profiles(rng, len(c["z"]))
         c["_kinds"] = dict(parity="%s%s" % ("e" if nx % 2 == 0 else "o", "e" if ny % 2 == 0 else "o"))
+        limit_growth(c)
+        im, jm = int(rng.integers(0, nx)), int(rng.integers(0, ny))
+        c["meas_pt"] = (im * c["domain"][0] / nx, jm * c["domain"][1] / ny)
         cases.append(c)
     correspond(cases, st)
     # oracle: exhaustive small sweep in thorough, sampled in quick
@@ -956,7 +965,8 @@ def run_C11(rng, tier, deep):
             st["branches"].get("parity=%s%s" % ("e" if nx % 2 == 0 else "o", "e" if ny % 2 == 0 else "o"), 0) + 1
         run_oracle(st, o_shape_registration, c)
         if rng.random() < 0.4:
-            c2 = dict(c, analytic=False, profiles=power_profiles(rng, len(c["z"]), c["z"]), meas_pt=(0.0, 0.0), footprint=False)
+            c2 = dict(c, analytic=False, profiles=power_profiles(rng, len(c["z"]), c["z"]), meas_pt=(0.0, 0.0), footprint=False, halo=0.0)
+            limit_growth(c2)
             run_oracle(st, o_lowpass_clamp, c2)
     return finish(st, "grid sizes 2..7 in both parities x mode counts below/at/above the padded size x halo 0/None/incommensurate x both modes; "
                   "oracle: shape, coordinates, registration against an independent closed-form synthesis at the same cells, low-pass and clamp by FFT of halo=0 outputs",
@@ -1104,6 +1114,7 @@ def run_C01(rng, tier, deep):
     for i in range(budget(tier, deep, 24, 200)):
         c = random_case(rng, analytic=False, small=(i % 4 != 0))
         c["profiles"] = power_profiles(rng, len(c["z"]), c["z"])
+        limit_growth(c)
         cases.append(c)
     correspond(cases, st)
     for _ in range(budget(tier, deep, 6, 60)):
